@@ -68,6 +68,10 @@ pub enum Step {
     ExportLazy(ImportStmt),
     /// top-level assignment `t<k> = v` (top-level export mode)
     TopAssign(u32, i64),
+    /// `t<k> += v` on an id that is already a local of the chunk
+    TopAddAssign(u32, i64),
+    /// `for i in 0..n` / `  t<k> += 1`: an accumulator in a top-level loop
+    TopLoopAdd(u32, u32),
     /// `export sub = mX` (after an `import mX`): a module-valued export
     ExportSub(usize),
     /// read another module's canary export by its bare name: visible only through a wildcard
@@ -241,6 +245,11 @@ fn render_steps(out: &mut Vec<String>, indent: usize, steps: &[Step], module: us
                 out.push(format!("{pad}  return {}", i.id));
             }
             Step::TopAssign(k, v) => out.push(format!("{pad}t{k} = {v}")),
+            Step::TopAddAssign(k, v) => out.push(format!("{pad}t{k} += {v}")),
+            Step::TopLoopAdd(k, n) => {
+                out.push(format!("{pad}for i in 0..{n}"));
+                out.push(format!("{pad}  t{k} += 1"));
+            }
             Step::ExportSub(t) => out.push(format!("{pad}export sub = {}", mname(*t))),
             Step::ReadCanary(id, r) => {
                 out.push(format!("{pad}c{id} = try"));
@@ -559,6 +568,12 @@ pub fn gen_scenario(seed: u64) -> Scenario {
                     top.push(Step::TopAssign(1, 5));
                     top.push(Step::TopAssign(2, 6));
                     top.push(Step::TopAssign(1, 7));
+                    if r.chance(1, 2) {
+                        top.push(Step::TopAddAssign(2, 10));
+                    }
+                    if r.chance(1, 2) {
+                        top.push(Step::TopLoopAdd(1, r.range(1, 3) as u32));
+                    }
                 } else if r.chance(1, 2) {
                     top.push(Step::Export(1, 500 + ops.len() as i64));
                     if r.chance(1, 2) {
@@ -886,6 +901,20 @@ impl ModelState {
                     }
                 }
                 Step::TopAssign(..) => {}
+                Step::TopAddAssign(k, v) => {
+                    if cx.export_top_level
+                        && let Some(e) = exports.iter_mut().find(|(n, _)| *n == format!("t{k}"))
+                    {
+                        e.1 += *v;
+                    }
+                }
+                Step::TopLoopAdd(k, n) => {
+                    if cx.export_top_level
+                        && let Some(e) = exports.iter_mut().find(|(n2, _)| *n2 == format!("t{k}"))
+                    {
+                        e.1 += *n as i64;
+                    }
+                }
                 Step::ExportSub(t) => {
                     // the module was imported by the preceding step: its completed exports
                     let path_exports: Option<Exports> = self
